@@ -887,6 +887,34 @@ func (in *flowInterp) relation(fr *fframe, f *a.Expr) string {
 	return "alias"
 }
 
+// culpritGroup: the culprit part of a failure key.  For the "alias" relations the
+// statement classes are collapsed into the few ways of changing state through
+// another path (the key then names the defect family, not the program shape).
+func culpritGroup(last, rel string) string {
+	if rel != "alias" && rel != "minted-alias" {
+		return last + ":" + rel
+	}
+	g := last
+	switch {
+	case strings.Contains(last, "-elem-of-"):
+		g = "elem-store"
+	case strings.HasSuffix(last, "-field"):
+		g = "field-store"
+	case strings.HasSuffix(last, "-local-slice"):
+		g = "slice-var-assign"
+	case strings.HasSuffix(last, "-local"):
+		g = "local-assign"
+	case strings.HasPrefix(last, "impure-call") || strings.HasPrefix(last, "coroutine-call"):
+		g = "call"
+		if strings.Contains(last, "+slice-arg") {
+			g = "call-with-slice-arg"
+		}
+	case strings.HasPrefix(last, "io-"):
+		g = "io-op"
+	}
+	return g + ":" + rel
+}
+
 func (in *flowInterp) checkFacts(fr *fframe, line int) {
 	if in.pure > 0 {
 		return
@@ -904,7 +932,7 @@ func (in *flowInterp) checkFacts(fr *fframe, line int) {
 		in.nFactsEval++
 		cls := in.factClass(f)
 		if v.Sign() == 0 {
-			in.fail("false-fact:"+cls+":after-"+fr.last+":"+in.relation(fr, f),
+			in.fail("false-fact:"+cls+":after-"+culpritGroup(fr.last, in.relation(fr, f)),
 				"the checker holds the fact %q before line %d of %s, but it is false there (statement executed last in this function: %s %q)",
 				f.Str(in.tm), line, fr.fn.FuncName().Str(in.tm), fr.last, fr.lastText)
 		}
@@ -927,7 +955,7 @@ func (in *flowInterp) checkAssert(fr *fframe, as *a.Assert, where string) {
 		if r := as.Reason(); r != 0 {
 			why = "via:" + strings.ReplaceAll(strings.Trim(r.Str(in.tm), `"`), " ", "")
 		}
-		in.fail("false-assert:"+as.Keyword().Str(in.tm)+":"+why+":"+in.factClass(as.Condition())+":after-"+fr.last+":"+in.relation(fr, as.Condition()),
+		in.fail("false-assert:"+as.Keyword().Str(in.tm)+":"+why+":"+in.factClass(as.Condition())+":after-"+culpritGroup(fr.last, in.relation(fr, as.Condition())),
 			"accepted %s %q is false %s (statement executed last in this function: %s %q)",
 			as.Keyword().Str(in.tm), as.Condition().Str(in.tm), where, fr.last, fr.lastText)
 	}
